@@ -45,7 +45,7 @@ PROPS = {
                      'after every step every key of the universe is looked up through contains/peek/peek_entry in borrowed and owned form and compared with the pointer walk (flag api_map)'],
     ),
     'C05': dict(
-        comps=['order', 'api_order'],
+        comps=['order', 'api_order', 'panic_order'],
         theorems=['C05_order', 'C05_observers', 'C05_peeks', 'C05_touch_pointer', 'C05_remove_pointer', 'C05_insert_pointer', 'C05_realloc_pointer'],
         assumptions=['iteration forward and reversed, keys(), values(), peek_lru/peek_mru and Debug are cross-checked against the pointer walk of the hook after every step (flag api_order)'],
     ),
@@ -104,7 +104,7 @@ PROPS = {
     ),
     'C16': dict(
         corr_only=['panic_state', 'panic_drops'],
-        comps=['panic_state', 'panic_drops', 'panic_ri', 'panic_acc', 'panic_nodup', 'panic_bound', 'panic_lost', 'panic_ledger'] +
+        comps=['panic_state', 'panic_drops', 'panic_ri', 'panic_acc', 'panic_nodup', 'panic_bound', 'panic_lost', 'panic_ledger', 'panic_order'] +
               [(c, None, 'panic') for c in ('drop_once', 'mon_c07', 'api_map', 'api_len', 'api_order', 'mon_c04', 'addr_stable')],
         theorems=['C16_all_points', 'C16_closure', 'C16_predicate', 'C16_clone'],
         assumptions=['panics are injected at the n-th Hash / Eq / Clone / HeapSize call and in the mutate closure / retain predicate of the instrumented types, for every such call each candidate operation makes in each generated state; the unwind is caught, the cache is used further and dropped',
